@@ -108,7 +108,7 @@ func (cfg judgeCfg) op(op dag.Op, st ordState) ordState {
 		return st
 	}
 	switch op := op.(type) {
-	case *dag.DefaultScan, *dag.Pass, *dag.Output, *dag.Filter:
+	case *dag.DefaultScan, *dag.PoolScan, *dag.Pass, *dag.Output, *dag.Filter:
 		return st
 	case *dag.Cut:
 		keep := false
